@@ -164,7 +164,7 @@ def platformMove (lifo : Bool) (s : State) : Option State :=
   | _, _ => firstSome (flightMove s) s.flights
 
 /-- a parked API handler that was signalled runs -/
-def wakeMove (s : State) : Option State := orElse' (wakeRt s) fun _ => wakeAgent s
+def wakeMove (lifo : Bool) (s : State) : Option State := orElse' (wakeRt s) fun _ => wakeAgent lifo s
 
 /-- a Kill goroutine of shutdownAgents runs -/
 def killMove (s : State) : Option State :=
@@ -173,25 +173,36 @@ def killMove (s : State) : Option State :=
   | [] => none
 
 /-- one internal move; `none` = quiescent. The events watcher always goes first. The relative
-    order of (a) the platform threads, (b) a signalled API handler, (c) the Kill goroutines is
-    the Go scheduler's choice: `v % 3` selects one of three fixed priorities, `v ≥ 3` makes the handler mutex LIFO (the oracle tries all six):
-    0: platform, kills, wakes   1: wakes, platform, kills   2: platform, wakes, kills -/
+    order of (a) the platform threads, (b) a signalled API handler leaving its wait, (c) the Kill goroutines,
+    (d) a woken handler reading the event is the Go scheduler's choice, made by the digit `d = v % 12`:
+    `d % 3` selects one of three priorities among (a)–(c)
+      0: platform, kills, wakes   1: wakes, platform, kills   2: platform, wakes, kills,
+    `d % 6 ≥ 3` makes the handler mutex LIFO and lets the last (not the first) runnable agent handler run,
+    `d ≥ 6` lets woken handlers read their event only when nothing else can move (otherwise they read it at once). -/
 def progress (v : Nat) (s : State) : Option State :=
   if s.crashed then none else
   match s.exitQueue with
   | (full, zero) :: rest => some (watchOne { s with exitQueue := rest } full zero)
   | [] =>
-    let lifo := v ≥ 3
+    let lifo := decide (v % 6 ≥ 3)
     let w := v % 3
-    if w == 1 then orElse' (wakeMove s) fun _ => orElse' (platformMove lifo s) fun _ => killMove s
-    else if w == 2 then orElse' (platformMove lifo s) fun _ => orElse' (wakeMove s) fun _ => killMove s
-    else orElse' (platformMove lifo s) fun _ => orElse' (killMove s) fun _ => wakeMove s
+    let rest :=
+      if w == 1 then orElse' (wakeMove lifo s) fun _ => orElse' (platformMove lifo s) fun _ => killMove s
+      else if w == 2 then orElse' (platformMove lifo s) fun _ => orElse' (wakeMove lifo s) fun _ => killMove s
+      else orElse' (platformMove lifo s) fun _ => orElse' (killMove s) fun _ => wakeMove lifo s
+    if v % 12 ≥ 6 then orElse' rest fun _ => renderWoken lifo s
+    else orElse' (renderWoken lifo s) fun _ => rest
+
+/-- the scheduler's choices for the moves to come: `v < 12` is one policy kept for good; a larger `v` is a
+    sequence of digits to base 12, least significant first, one per move, the last one kept for good — every
+    finite sequence of choices is some `v` -/
+def nextChoice (v : Nat) : Nat := if v < 12 then v else v / 12
 
 def settle (v : Nat) : Nat → State → State
   | 0, s => s
   | n + 1, s => match progress v s with
     | none => s
-    | some s' => settle v n s'
+    | some s' => settle (nextChoice v) n s'
 
 /-- the routes of the Runtime API server — `lambda/rapi/router.go` composed with the mounts of
     `lambda/rapi/server.go`, in source order: (method, path, condition, guard).
